@@ -99,8 +99,8 @@ def categorize(fn, formula, want, got, o):
 def main():
     rep = Report(PID)
     thorough = tier() == 'thorough'
-    obl = []
-    for fam in FAMILIES + ['extra']:
+    obl, extra = [], []
+    for fam in FAMILIES + ['extra', 'more']:
         src = open('/verif/spec/Fns_%s.cfg' % fam).read().replace('EmitObl = FALSE', 'EmitObl = TRUE')
         tmp = 'Fns_%s_run%d.cfg' % (fam, os.getpid())
         open(os.path.join('/verif/spec', tmp), 'w').write(src)
@@ -112,8 +112,8 @@ def main():
         part = parse_obl(r['out'])
         if len(part) * 2 != r['distinct']:
             raise MachineryError('Fns %s: %d obligations for %d states' % (fam, len(part), r['distinct']))
-        if fam == 'extra':
-            extra = part
+        if fam in ('extra', 'more'):
+            extra = extra + part
             continue
         obl.extend(part)
     rnd = random.Random(seed() * 31 + 5)
@@ -133,8 +133,10 @@ def main():
                            'how': "Cell('Z90' or a range of the result's shape, formula) with the "
                                   "referenced ranges supplied"})
     rep.traces(len(res))
-    # beyond the list of C12: MAXA MINA AVERAGEA GCD LCM T CODE CHAR FACT MROUND are defined in
-    # FnDef.tla too; they are replayed for information, a disagreement is not a C12 violation
+    # beyond the list of C12: MAXA MINA AVERAGEA GCD LCM T CODE CHAR FACT MROUND (FnDef.tla) and
+    # PERCENTILE / QUARTILE (.INC .EXC), CEILING.MATH FLOOR.MATH CEILING.PRECISE FLOOR.PRECISE
+    # ISO.CEILING, FACTDOUBLE, MMULT MDETERM MUNIT TRANSPOSE (FnMore.tla) are defined too; they
+    # are replayed for information, a disagreement is not a C12 violation
     xres = []
     for part in pmap(_shard, shards(extra, NCPU * 2), chunk=1):
         xres.extend(part)
